@@ -85,6 +85,15 @@ def boundary_values(kind: str) -> list:
 
 
 def random_value(kind: str, rng: random.Random, big: bool = False):
+    # every consumer of random values (typed attributes, nested containers, node workloads) also meets the
+    # boundary values of the type now and then, not only the checks that enumerate them
+    if kind not in ("raw",) and rng.random() < 0.12:
+        b = boundary_values(kind)
+        if b:
+            return rng.choice(b)
+    if kind == "address" and rng.random() < 0.15:
+        quad = ".".join(str(rng.randrange(256)) for _ in range(4))
+        return rng.choice(["::ffff:", "::", "64:ff9b::", "2001:db8::"]) + quad
     if kind in ("octets", "raw"):
         r = rng.random()
         if big and r < 0.15:
